@@ -54,16 +54,53 @@ def redirect_fds(path):
         os.close(saved[1])
 
 
+_ENS = None
+
+
+def ens_table():
+    """60 (symbol, Ensembl id) pairs of the package's mouse table, one symbol per id (scheme 'ensembl')"""
+    global _ENS
+    if _ENS is None:
+        from cell_type_mapper.data.mouse_gene_id_lookup import mouse_gene_id_lookup
+        seen, out = set(), []
+        for sym in sorted(mouse_gene_id_lookup):
+            e = mouse_gene_id_lookup[sym]
+            if e in seen or not sym[0].isalpha() or sym.startswith('ENS') or not e.startswith('ENSMUSG'):
+                continue
+            seen.add(e)
+            out.append((sym, e))
+            if len(out) == 60:
+                break
+        _ENS = out
+    return _ENS
+
+
 def gene_name(g, scheme='structural'):
     if scheme == 'reversed':
         return f'ENS{999 - g:03d}'
+    if scheme == 'ensembl':
+        return ens_table()[g - 1][1]
     return f'g{g}'
 
 
 def gene_id(name, scheme='structural'):
     if scheme == 'reversed':
         return 999 - int(name[3:])
+    if scheme == 'ensembl':
+        return [e for _, e in ens_table()].index(name) + 1
     return int(name[1:])
+
+
+def query_gene_name(g, scheme, G):
+    """name under which gene g is written in the QUERY file.  Scheme 'ensembl' (map_to_ensembl runs): a gene
+    symbol, the Ensembl id or a versioned Ensembl id for reference genes; for genes the reference does not
+    know an unmappable name or the symbol of an unrelated gene"""
+    if scheme != 'ensembl':
+        return gene_name(g, scheme)
+    if g <= G:
+        sym, ens = ens_table()[g - 1]
+        return [sym, ens, ens + '.5'][g % 3]
+    return f'mystery-{g}' if g % 2 else ens_table()[30 + g][0]
 
 
 def write_h5ad(path, X, cell_names, gene_names, enc='dense', obs_extra=None, layer=None,
@@ -146,7 +183,7 @@ def materialise(scn, d, scheme='structural', name_tables=False):
     cfg = scn['cfg']
     Q = np.array(scn.get('Qf', scn['Q']), dtype=float).reshape((len(scn['cells']), len(scn['qgenes'])))
     write_h5ad(d / 'q.h5ad', Q, [nm.cell(c) for c in scn['cells']],
-               [gene_name(g, scheme) for g in scn['qgenes']], cfg.get('enc', 'dense'))
+               [query_gene_name(g, scheme, G) for g in scn['qgenes']], cfg.get('enc', 'dense'))
     mk = {}
     for k, v in scn['markers'].items():
         l, n = [int(x) for x in k.split('/')]
@@ -156,6 +193,9 @@ def materialise(scn, d, scheme='structural', name_tables=False):
     conf = mapping_config(d, d / 'q.h5ad', d / 'stats.h5', d / 'm.json', cfg)
     if cfg.get('drop') is not None:
         conf['drop_level'] = nm.level(cfg['drop'])
+    if scheme == 'ensembl':
+        conf['map_to_ensembl'] = True
+        conf['summary_metadata_path'] = str(d / 'out' / 'summary.json')
     if cfg.get('flookup'):
         # per-level bootstrap factors: list of [level name or 'None', factor]
         conf['type_assignment']['bootstrap_factor_lookup'] = [
